@@ -121,22 +121,48 @@ def check(env, rep, tier):
         if clone is None:
             rep.missing("C08.4", "the function copying the cached reply into the live reply")
         else:
-            info = interp.BodyInfo(clone)
-            in_loop_calls, switches = [], 0
-            for bi, bb in enumerate(clone["blocks"]):
-                if bb["cleanup"] or bi not in info.rpo_ix or info.inner.get(bi) is None:
-                    continue
-                t = bb["term"]
-                if t["k"] == "call":
-                    in_loop_calls.append((t.get("resolved") or t.get("callee") or {}).get("path"))
-                elif t["k"] == "switch":
-                    switches += 1
-            all_calls = [(bb["term"].get("resolved") or bb["term"].get("callee") or {}).get("path") for bb in clone["blocks"] if bb["term"]["k"] == "call" and not bb["cleanup"]]
-            ok = "packet::Packet::options" in all_calls and "packet::Packet::set_option" in in_loop_calls and switches == 1 \
-                and any(p and p.endswith("LinkedList<T, A> as core::clone::Clone>::clone") for p in in_loop_calls)
+            I = new_interp(prog)
+            gargs = (("param", "Endpoint"),)
+            st = State()
+            subst = prog.body_subst(clone, gargs)
+            cargs = [I.mat(st, prog.ty(clone["locals"][i + 1]["ty"], subst), "a%d" % i) for i in range(clone["arg_count"])]
+            bad, n_items, n_sets = [], [0], [0]
+            src_opts = []
+
+            def chook(I_, s, call, cbody):
+                p = call.path
+                if "btree::map::Iter" in p and p.endswith("::next"):
+                    s.ghost.pop(("inj", "item-open"), None)
+                    s.ghost.pop("echoed", None)
+                    n_items[0] += 1
+                elif p == "packet::Packet::options" or p.endswith("BTreeMap::<K, V, A>::iter"):
+                    a = call.args[0]
+                    src_opts.append(a.place.key if isinstance(a, RefV) else None)
+                elif p in ("packet::Packet::set_option", "packet::Packet::add_option") and isinstance(call.args[0], RefV) \
+                        and isinstance(cargs[0], RefV) and call.args[0].place.key == cargs[0].place.key:
+                    v = call.args[2] if len(call.args) > 2 else None
+                    if p.endswith("set_option") and isinstance(v, OpaqueV) and v.get("clone_of") is not None:
+                        s.ghost["echoed"] = True
+                        n_sets[0] += 1
+            I.call_hooks.append(chook)
+
+            def lhook(I_, ctx, h, head, backs, exits):
+                if ctx.body["id"] != clone["id"]:
+                    return
+                for b_ in backs:
+                    if b_.ghost.get(("inj", "item-open")) and not b_.ghost.get("echoed"):
+                        bad.append({"file": clone["span"]["f"], "line": clone["span"]["l"], "fn": clone["path"]})
+            I.loop_hooks.append(lhook)
+            I.no_join_bodies.add(clone["id"])
+            I.unroll_max_blocks = 0
+            I, cres = run(prog, clone, args=cargs, st=st, I=I, gargs=gargs)
+            from_src = bool(src_opts) and isinstance(cargs[1], RefV) and all(k == cargs[1].place.key for k in src_opts)
+            ok = not bad and n_items[0] > 0 and n_sets[0] > 0 and from_src
             rep.ob("C08.4", "option-echo", ok,
-                   "the cached reply's options are not all copied unconditionally into each served block (loop over options() with set_option(k, v.clone()); %d branch(es) in the loop)" % switches,
-                   {"file": clone["span"]["f"], "line": clone["span"]["l"], "fn": clone["path"]})
+                   "the cached reply's options are not all copied into each served block: some option entry of the cached reply can be passed over "
+                   "without set_option(number, values.clone()) on the live reply (items iterated: %d, copies: %d, skipping paths: %d)" % (n_items[0], n_sets[0], len(bad)),
+                   {"file": clone["span"]["f"], "line": clone["span"]["l"], "fn": clone["path"]},
+                   sample={"rule": "C08.4", "iterated": n_items[0], "copied": n_sets[0], "skipping_paths": len(bad)})
         # ------------------------------------------------ C08.5 first block never 4.00
         def setup(tr_, I, st):
             pass
